@@ -372,6 +372,44 @@ func runC18(r *vk.Run) {
 		}
 	})
 
+	// logs holding a frame that is not "<timestamp> <message>" (a runtime's panic text written around the
+	// logging driver, an empty payload): whatever the tool makes of it -- an error, an entry -- it makes the
+	// same of it every time; nothing in the answer may come from the moment the query happens to run
+	r.Phase("oddlines", r.N(6, 60), func(c *vk.Case) {
+		rng := c.Rng
+		n := rng.Range(1, 3)
+		inv := c14Inventory(rng, n, 3)
+		odd := vk.Pick(rng, []string{"panic: runtime error: index out of range", "not-a-time body", "2024-13-45T00:00:00Z x", "1700000000 epoch seconds", "2024-01-02 03:04:05 space-separated", "T body"})
+		at := rng.Intn(len(inv[0].Frames) + 1)
+		fr := append([]Frame{}, inv[0].Frames[:at]...)
+		fr = append(fr, Frame{Type: byte(1 + rng.Intn(2)), Raw: odd})
+		inv[0].Frames = append(fr, inv[0].Frames[at:]...)
+		for _, q := range []string{`{container=~".+"}`, `{container=~".+"} | drop msg`, `sum(count_over_time({container=~".+"}[5s]))`} {
+			first := ""
+			for rep := 0; rep < c.R.N(6, 20); rep++ {
+				fd := newFakeDocker(inv)
+				data, err := evalRaw(fd, q, EvalP{Start: c14T0 - 10e9, End: c14T0 + 100e9, Step: 5 * time.Second, Limit: -1})
+				c.Eval(1)
+				outcome := ""
+				if err != nil {
+					outcome = "error: " + err.Error()
+				} else {
+					res, _ := convertResult(data)
+					outcome = res.Canonical()
+				}
+				if first == "" {
+					first = outcome + "\x00"
+				} else if first != outcome+"\x00" {
+					c.Fail("", fmt.Sprintf("query %s over a log with the frame %q gave different outcomes in two runs", q, odd), map[string]any{"query": q, "inventory": inv, "this_run": trunc(outcome, 2000), "first_run": trunc(first, 2000)})
+					return
+				}
+				c.Count("oddline_runs_compared", 1)
+			}
+		}
+		c.Nontrivial(fmt.Sprintf("odd|%d", c.Idx))
+	})
+	r.Require("oddline_runs_compared", 60)
+
 	r.Phase("stress", r.N(6, 60), func(c *vk.Case) {
 		inv := c14Inventory(c.Rng, 64, 3)
 		for i := range inv {
